@@ -74,6 +74,11 @@ def run_config(P: Dict[str, Any], args: List[Any], cfg: Dict[str, Any]) -> Tuple
             elif cfg.get("derive") == "executor":
                 target = b.dag.executor()  # dag.executor()(*args) instead of dag(*args)
             with ex:
+                if cfg.get("setup_first"):
+                    # dag.setup() before the call (with or without setup nodes): the call computes the same thing
+                    r0 = target.setup()
+                    if asyncio.iscoroutine(r0):
+                        asyncio.run(r0)
                 val = asyncio.run(target(*a)) if cfg.get("async") else target(*a)
             return val, None, ex, b
         except BaseException as e:  # noqa: BLE001
@@ -126,7 +131,8 @@ def configs(draw: Any, n: int = 3, sites: Optional[List[str]] = None, modes: Any
                              "mode": draw(st.sampled_from(list(modes))),
                              "via": draw(st.sampled_from(["decorator", "decorator", "dict", "yaml", "json"])),
                              "debug": draw(st.booleans()), "build_debug": draw(st.booleans()),
-                             "derive": draw(st.sampled_from([None, None, None, "deepcopy", "executor"]))}
+                             "derive": draw(st.sampled_from([None, None, None, "deepcopy", "executor"])),
+                             "setup_first": draw(st.sampled_from([False, False, True]))}
         if c["mode"] == "ctl":
             c["choices"] = draw(st.lists(st.integers(0, 2**16), max_size=10))
         elif sites:
